@@ -4,6 +4,7 @@ mod ebrworld;
 mod qlworld;
 mod rcdirected;
 mod rcpairs;
+mod rcreplay;
 mod rcsys;
 mod rcrun;
 mod rcworld;
@@ -258,6 +259,33 @@ fn real_main() {
                 ctl.out.len(),
                 ctl.site_hits.iter().map(|(k, v)| format!("\"{}\":{}", k, v)).collect::<Vec<_>>().join(","),
                 ctl.op_hits.iter().map(|(k, v)| format!("\"{}\":{}", k, v)).collect::<Vec<_>>().join(",")
+            );
+            ctl.quit();
+        }
+        "rc-replay" => {
+            rc_setup();
+            // --in : behaviours generated by TLC (one JSON array per line); --out : trace
+            let inp = sarg(&args, "--in", "");
+            let out = sarg(&args, "--out", "replay");
+            let text = std::fs::read_to_string(&inp).expect("cannot read behaviours");
+            let mut ctl = rcworld::Ctl::new(2);
+            let st = rcreplay::run_replay(&mut ctl, &text);
+            let file = format!("{}.t2.ndjson", out);
+            write_out(&file, &ctl.out);
+            let div: Vec<String> = st.diverged.iter().take(40).map(|(b, i, w)| format!("{{\"behaviour\":{},\"event\":{},\"why\":{:?}}}", b, i, w)).collect();
+            println!(
+                "{{\"runs\":[{{\"file\":{:?},\"vocab\":\"generated\",\"threads\":2,\"scenarios\":{},\"aborted\":0,\"lines\":{},\"sites\":{{{}}},\"ops\":{{{}}}}}],\"replay\":{{\"behaviours\":{},\"events\":{},\"followed\":{},\"complete\":{},\"diverged\":{},\"first_divergences\":[{}]}}}}",
+                file,
+                st.behaviours,
+                ctl.out.len(),
+                ctl.site_hits.iter().map(|(k, v)| format!("\"{}\":{}", k, v)).collect::<Vec<_>>().join(","),
+                ctl.op_hits.iter().map(|(k, v)| format!("\"{}\":{}", k, v)).collect::<Vec<_>>().join(","),
+                st.behaviours,
+                st.events,
+                st.followed,
+                st.complete,
+                st.diverged.len(),
+                div.join(",")
             );
             ctl.quit();
         }
